@@ -34,6 +34,8 @@ impl Vm {
                 self.run_gc();
                 return Ok(None);
             }
+            #[cfg(feature = "verif-hooks")]
+            self.verif_boundary();
             match self.run_one() {
                 Ok(true) => break,
                 Ok(false) => continue,
@@ -480,9 +482,19 @@ impl Vm {
     ///
     /// 3. A sweep, freeing any vcells not marked as used in step #1.
     pub fn run_gc(&mut self) {
-        if (self.heap.used_size() as f64 / self.heap.capacity() as f64) < 0.75_f64 {
+        #[cfg(feature = "verif-hooks")]
+        let forced = match self.verif_state().gc_mode {
+            crate::vm::verif::GcMode::Suppress => return,
+            crate::vm::verif::GcMode::ForceOnce => true,
+            crate::vm::verif::GcMode::Normal => false,
+        };
+        #[cfg(not(feature = "verif-hooks"))]
+        let forced = false;
+        if !forced && (self.heap.used_size() as f64 / self.heap.capacity() as f64) < 0.75_f64 {
             return;
         }
+        #[cfg(feature = "verif-hooks")]
+        let verif_free_before = self.heap.free_size();
 
         self.globenv
             .iter_bindings()
@@ -500,10 +512,21 @@ impl Vm {
         self.heap.mark(self.ip.0);
         self.heap.mark(self.ep);
         self.heap.sweep();
+        #[cfg(feature = "verif-hooks")]
+        {
+            let freed = self.heap.free_size().saturating_sub(verif_free_before);
+            let state = self.verif_state_mut();
+            state.collections += 1;
+            state.last_freed = freed;
+        }
 
         // If after GC the heap utilization is still high, grow the heap.
         if (self.heap.used_size() as f64 / self.heap.capacity() as f64) > 0.75_f64 {
             self.heap.grow();
+            #[cfg(feature = "verif-hooks")]
+            {
+                self.verif_state_mut().grows_after_gc += 1;
+            }
         }
     }
 
